@@ -89,6 +89,7 @@ type Contract struct {
 	Invokes  []string  // function-typed parameters the function calls at most once (higher-order protocol)
 	Callback []*Clause // assumed after every dynamic (user callback) call inside the function (A-user)
 	CallSites map[string][]*Clause // callsite KEY requires EXPR: checked at every call of KEY made by this function (callee parameters are named a_<param>)
+	CallbackProvides []*Clause // "callback provides E": what the function guarantees about the arguments (cbarg0, cbarg1, ...) and the state at every invocation of a parameter listed under 'invokes'
 	CallbackPure []string // function-typed parameters whose calls are assumed to have no side effects (A-user; listed in the evidence)
 	File     string
 	Line     int
@@ -773,8 +774,16 @@ func readSpecFile(path string) (*SpecFile, error) {
 				cur.CallbackPure = append(cur.CallbackPure, strings.Fields(strings.TrimPrefix(rest, "pure "))...)
 				continue
 			}
+			if strings.HasPrefix(rest, "provides ") {
+				c, err := mk("callbackprovides", strings.TrimPrefix(rest, "provides "))
+				if err != nil {
+					return nil, err
+				}
+				cur.CallbackProvides = append(cur.CallbackProvides, c)
+				continue
+			}
 			if !strings.HasPrefix(rest, "ensures ") {
-				return nil, fail(rl, "callback ensures EXPR | callback pure PARAM")
+				return nil, fail(rl, "callback ensures EXPR | callback provides EXPR | callback pure PARAM")
 			}
 			c, err := mk("callback", strings.TrimPrefix(rest, "ensures "))
 			if err != nil {
